@@ -364,6 +364,15 @@ def lift_block(blk, log, meta, canary=False):
         for t in src.trivia:
             if sig[i].start <= t.start < sig[e].end and (t.text.startswith('///') or t.text.startswith('/**')):
                 ed.replace(t.start, t.end, '', 'R3')
+        if a.get('drop_where'):
+            for j in range(i, e + 1):
+                if sig[j].kind == 'id' and sig[j].text == 'where':
+                    k = j
+                    while not (sig[k].kind == 'p' and sig[k].text in ';{'):
+                        k += 1
+                    ed.replace(sig[j].start, sig[k].start, '', 'R3')
+                    log.append(f'R3 {src.rel}:{src.line_of(sig[j].start)} where-clause of type `{a["name"]}` dropped: ' + src.text[sig[j].start:sig[k].start].strip().replace('\n', ' '))
+                    break
         pre = a.get('derive')
         if pre:
             segs.append(Seg(f'#[derive({pre})]\n', tag='R3-derive'))
